@@ -41,7 +41,8 @@ def strategy(tier, unit):
         st.builds(lambda x, al: [x, x, x, al, al, al], a, S.fl(62.0, 108.0)),
         st.builds(lambda x, y, z, be: [x, x * y, x * y * z, 90.0, be, 90.0], a, S.fl(1.0, 1.7), S.fl(1.0, 1.7), S.fl(91.0, 118.0)))
     return st.fixed_dictionaries({"cell": st.one_of(red, red, fam), "M": st.one_of(st.none(), st.integers(0, 6959)),
-                                  "mod": st.sampled_from(["tools", "laue"])})
+                                  "mod": st.sampled_from(["tools", "laue"]),
+                                  "pre_uvw": st.sampled_from([None, None, 1, 2, 4, 5])})
 
 
 _IDX = {}
@@ -97,6 +98,13 @@ def same_lattice(G1, G2):
     return None
 
 
+def _G(cell):
+    """metric tensor only (no inverse: the output of a failed reduction may be degenerate)"""
+    a, b, c, al, be, ga = [float(x) for x in cell]
+    ca, cb, cg = (math.cos(math.radians(x)) for x in (al, be, ga))
+    return np.array([[a * a, a * b * cg, a * c * cb], [a * b * cg, b * b, b * c * ca], [a * c * cb, b * c * ca, c * c]])
+
+
 def check(case, ctx):
     from xfab import tools, laue
     m = case["mod"]
@@ -115,12 +123,31 @@ def check(case, ctx):
     if not wide or any(max(np.max(np.abs(c[0])), np.max(np.abs(c[1])), np.max(np.abs(c[2]))) > 2 for c in wide):
         ctx.event("outside-domain (reduced basis beyond |uvw|<=2): skipped")
         return
+    # history element: an earlier call with a non-default search range must not influence the default call
+    pre = case.get("pre_uvw")
+    if pre is not None:
+        ctx.event("earlier-call-with-uvw=%d" % pre)
+        pre_out = [float(x) for x in mod.reduce_cell(cell, uvw=pre)]
+        cp = candidate_bases(A, -pre, pre)
+        finite = all(math.isfinite(x) for x in pre_out)
+        degenerate = (not finite) or min(pre_out[:3]) <= 1e-9 or np.linalg.det(_G(pre_out)) <= 1e-12 * np.linalg.det(G)
+        if degenerate:
+            # a range too small to contain an admissible triple (for the tie order the sort happened to produce)
+            # has no defined answer
+            ctx.event("small-range-without-admissible-triple (undefined, skipped)")
+        if cp and not degenerate:
+            # whatever the range, the answer must be built from the shortest non-coplanar vectors of THAT range
+            # (ranges without an admissible triple have no defined answer and are skipped)
+            Gp = _G(pre_out)
+            scp = np.max(np.abs(Gp))
+            if not any(np.allclose(R @ R.T, Gp, rtol=0, atol=1e-8 * scp) or np.allclose(R.T @ R, Gp, rtol=0, atol=1e-8 * scp) for (_, _, _, R) in cp):
+                ctx.fail("wrong-vectors-uvw%d/%s" % (pre, m), "%s.reduce_cell(%r, uvw=%d) = %r is not built from the shortest non-coplanar vectors of that range" % (m, cell, pre, pre_out))
     out = mod.reduce_cell(cell)
     out = [float(x) for x in out]
     if not all(math.isfinite(x) for x in out) or len(out) != 6:
         ctx.fail("non-finite/" + m, "%s.reduce_cell(%r) = %r" % (m, cell, out))
         return
-    Gout = O.metric(out)[0]
+    Gout = _G(out)
     V_in, V_out = math.sqrt(np.linalg.det(G)), math.sqrt(max(np.linalg.det(Gout), 0))
     ctx.near("volume", abs(V_out / V_in - 1), 1e-8, "volume-changed/" + m, "%s.reduce_cell(%r) = %r changes the volume %r -> %r" % (m, cell, out, V_in, V_out))
     cands = candidate_bases(A, -3, 3)
